@@ -425,7 +425,7 @@ package factory
 // error list, and calls Done exactly once.
 //@ func (*PostProcessorRegistrationDelegate).applyDefinitionRegistryPostProcessors$1
 //@ terminates
-//@ property C20 C09
+//@ property C20 C09 C11
 //@ thread wg
 //@ requires [wired] processor != nil && factory != nil
 //@ assigns ScanRegion[name], ScanFailed[tid], wg.Dones
@@ -445,7 +445,7 @@ package factory
 //@ ghost var ScanProcsLen int
 //@ func (*PostProcessorRegistrationDelegate).applyDefinitionRegistryPostProcessors
 //@ terminates
-//@ property C20 C09
+//@ property C20 C09 C11
 //@ requires [factory-given] factory != nil
 //@ requires [no-live-threads] Joined <= Forks && forall(k, int, implies(k >= Forks, !ScanRecorded[k] && !ScanFailed[k]))
 //@ assigns Forks, Joined, ScanRegion, ScanFailed, ScanRecorded, ScanBase, Failed, forkargs(name), forkargs(component), ScanRounds, ScanProcsLen
